@@ -141,6 +141,95 @@ def run_scenario(rng, flavour, tier, cfg_a=None, cfg_b=None, timers=False):
     return sim, sent, meta
 
 
+def coalesced_term_scenario(rng, tier):
+    ''' Termination with keepalives enabled and *coalesced* reads: each side writes everything it has
+    before the peer reads, and the peer reads it in one chunk, so a decisive message (SESS_TERM, final
+    XFER_ACK, final XFER_SEGMENT) is regularly followed by another message (KEEPALIVE, ACK, …) inside the
+    same `recv_raw` call. Keepalive timers are fired between a message being queued and being pumped. '''
+    cfg_a = gen_cfg(rng)
+    cfg_b = gen_cfg(rng)
+    cfg_a['keepalive'] = rng.choice([1, 2, 5])
+    cfg_b['keepalive'] = rng.choice([1, 2, 5])
+    for c in (cfg_a, cfg_b):
+        c['seg_init'] = max(c['seg_init'], 3)
+    sim = ts.Sim(cfg_a, cfg_b)
+    for ep in sim.eps():
+        ep.popped = {}
+    sent = {'a': [], 'b': []}
+    meta = {'cfg_a': cfg_a, 'cfg_b': cfg_b, 'flavour': 'coalesced', 'term': [], 'hard': False, 'quiescent': False}
+    sim.establish(rng)
+    if sim.a.closed() or sim.b.closed() or sim.a.h._state != 'established' or sim.b.h._state != 'established':
+        return sim, sent, meta
+
+    def drain_tx(ep):
+        n = 0
+        while sim.tx_sources(ep) and not ep.closed() and n < 400:
+            sim.pump(ep, ts.CHUNK)
+            n += 1
+
+    def drain_pq(ep):
+        n = 0
+        while ep.sources('idle', '_process_queue') and not ep.closed() and n < 400:
+            sim.pq(ep)
+            n += 1
+
+    def read_all(ep):
+        n = 0
+        while sim.inflight[ep.name] and not ep.closed() and n < 400:
+            sim.rx(ep, ts.CHUNK)
+            n += 1
+        if not ep.closed() and 'eof' in sim.enabled(ep):
+            sim.eof(ep)
+
+    def fire_ka(ep):
+        if not ep.closed() and 'ka' in sim.due_timers(ep):
+            sim.timer(ep, 'ka')
+
+    for who in ('a', 'b'):
+        for _ in range(rng.choice([0, 0, 1, 2])):
+            ep = sim.a if who == 'a' else sim.b
+            seg = eff_seg(cfg_a, cfg_b) if who == 'a' else eff_seg(cfg_b, cfg_a)
+            d = gen_bundle(rng, seg, big_ok=False)
+            sim.send(ep, d)
+            sent[who].append(d)
+    kind = rng.choice(['term_a', 'term_b', 'term_both'])
+    term_at = rng.choice([0, 0, 1, 2])
+    for rnd in range(40):
+        if all(ep.closed() for ep in sim.eps()):
+            break
+        if rnd == term_at:
+            for (k, ep) in (('a', sim.a), ('b', sim.b)):
+                if kind in ('term_' + k, 'term_both') and not ep.closed():
+                    sim.terminate(ep, rng.choice([0, 3]))
+                    if ep.obs[-1].get('raised') is None:
+                        meta['term'].append(k)
+        order = [sim.a, sim.b]
+        rng.shuffle(order)
+        for ep in order:
+            if rng.random() < 0.8:
+                drain_pq(ep)
+        # let a keepalive interval elapse now and then, *before* the queued octets are written
+        if rng.random() < 0.7:
+            sim.advance(rng.choice([1000, 2000, 5000]))
+            for ep in order:
+                if rng.random() < 0.8:
+                    fire_ka(ep)
+        for ep in order:
+            drain_tx(ep)
+        for ep in order:
+            read_all(ep)
+        if not _any_enabled(sim) and rnd > term_at:
+            break
+    # whatever is left: random order to quiescence (timers included)
+    meta['quiescent'] = sim.run_quiescent(rng)
+    meta['ended'] = bool(meta['term'])
+    for ep in sim.eps():
+        if not ep.closed():
+            for q in ('idle', 'txq', 'rxq', 'state'):
+                sim.query(ep, q)
+    return sim, sent, meta
+
+
 def _any_enabled(sim):
     for ep in sim.eps():
         if sim.enabled(ep) or sim.due_timers(ep):
